@@ -1,6 +1,6 @@
 ------------------------------- MODULE DurBig -------------------------------
 (* C08 for TLC: property spec (exact sums over mathematical integers, Fits64, largest
-   dividing unit) and the TLC-side twin of the design spec DurParse (int64 wrap-around),
+   dividing unit) and the TLC-side twin of the design spec DurParse (checked uint64 accumulation),
    both on spec/common/BigInt values, because TLC integers are 32-bit.  Every 64-bit
    quantity is a decimal string outside and a BigInt record inside.
 
@@ -49,8 +49,9 @@ MagFrom(comps, i) == IF i > Len(comps) THEN Zero
 MagSum(comps) == MagFrom(comps, 1)                       \* sum of the components, unsigned
 Signed(neg, m) == IF neg THEN Neg(m) ELSE m
 ExactSum(neg, comps) == Signed(neg, MagSum(comps))
-\* a numeral that is itself no 64-bit integer (the code reads it with strconv.ParseInt)
-NumeralTooBig(comps) == \E i \in 1..Len(comps) : Cmp(FromDec(comps[i].n), MaxI64) > 0
+\* numerals beyond int64 / beyond uint64 (the code reads them with strconv.ParseUint)
+NumeralAboveI64(comps) == \E i \in 1..Len(comps) : Cmp(FromDec(comps[i].n), MaxI64) > 0
+NumeralAboveU64(comps) == \E i \in 1..Len(comps) : Cmp(FromDec(comps[i].n), MaxU64) > 0
 
 \* ---- two's complement reduction into int64, without division ------------------------
 Times10(a) == MulLimb(a, 10, 1, 0)
@@ -64,9 +65,21 @@ WrapI64(x) == LET r0 == NatMod(x.mag, P64.mag)
                  ELSE [neg |-> FALSE, mag |-> r]
 
 \* ---- design twin (DurParse in BigInt): what the transcribed code does on a well-formed spelling
-\* accepts iff every numeral is an int64 and (neg or the wrapped magnitude is non-negative)
-DesignAccepts(neg, comps) == ~NumeralTooBig(comps) /\ (neg \/ ~WrapI64(MagSum(comps)).neg)
-DesignValue(neg, comps) == WrapI64(ExactSum(neg, comps))
+\* limit = MaxInt64, one more after a leading '-'; component by component: numeral > MaxUint64 -> error;
+\* n > (limit-mag) div mult -> error (for integers and mult > 0 the same as n*mult > limit-mag, which
+\* needs no division); otherwise mag += n*mult.  Returns [ok, mag].
+Limit(neg) == IF neg THEN P63 ELSE MaxI64
+RECURSIVE DesignFrom(_, _, _, _)
+DesignFrom(neg, comps, i, mag) ==
+  IF i > Len(comps) THEN [ok |-> TRUE, mag |-> mag]
+  ELSE LET n == FromDec(comps[i].n)
+           p == Mul(n, Mult(comps[i].u)) IN
+       IF Cmp(n, MaxU64) > 0 THEN [ok |-> FALSE]
+       ELSE IF Cmp(p, Sub(Limit(neg), mag)) > 0 THEN [ok |-> FALSE]
+       ELSE DesignFrom(neg, comps, i + 1, Add(mag, p))
+Design(neg, comps) == DesignFrom(neg, comps, 1, Zero)
+DesignAccepts(neg, comps) == Design(neg, comps).ok
+DesignValue(neg, comps) == Signed(neg, Design(neg, comps).mag)
 
 \* ---- thresholds: T = t*u + r with 0 <= r < u (checked below by multiplication) ---------
 Thr == [ p63 |-> [ ns |-> [t |-> "9223372036854775808", r |-> "0"],
